@@ -213,7 +213,11 @@ impl<T: Send> UnboundedShared<T> {
   /// beyond the gate load; with waiters, the producer enters the consumer
   /// mutex and runs a handoff session (or classic wake-one under the
   /// kill-switch) - which also removes the wake-then-lose-race respawning.
-  pub(crate) fn notify_receivers(&self) {
+  ///
+  /// `published` is the number of items the caller just made visible: the
+  /// classic path wakes one parked receiver per item (a batch woke a single
+  /// receiver before, leaving the others parked with items queued).
+  pub(crate) fn notify_receivers(&self, published: usize) {
     fence(Ordering::SeqCst);
     if self.recv_waiter_count.load(Ordering::Relaxed) == 0 {
       return;
@@ -223,9 +227,12 @@ impl<T: Send> UnboundedShared<T> {
       let mut c = self.consumer.lock();
       if EAGER_HANDOFF {
         self.handoff_session(&mut c, &mut wakes);
-      } else if let Some(e) = c.waiters.pop_front() {
-        e.cell.state.store(WAITER_NOTIFIED, Ordering::Release);
-        wakes.0.push(e.wake);
+      } else {
+        for _ in 0..published {
+          let Some(e) = c.waiters.pop_front() else { break };
+          e.cell.state.store(WAITER_NOTIFIED, Ordering::Release);
+          wakes.0.push(e.wake);
+        }
       }
       self.store_waiter_count(&c);
     }
